@@ -1453,7 +1453,8 @@ class BuilderSim:
             while x is not None:
                 anc.append(x)
                 x = x.parent if x.parent is not None else getattr(x, "def_site", None)
-            others = [o for o in self.actors if isinstance(o, Actor) and o not in anc and any(not w.lin for w in o.pool)]
+            others = [o for o in self.actors if isinstance(o, Actor) and o not in anc and any(not w.lin for w in o.pool)
+                      and not (a.kind == "block" and getattr(o, "cfg", None) is getattr(a, "cfg", None))]
             if others:
                 bad = next(w for w in others[ch.draw(len(others), "bad-src")].pool if not w.lin)
                 try:
@@ -1462,6 +1463,10 @@ class BuilderSim:
                 except Exception as e:  # noqa: BLE001
                     outcome = type(e).__name__
                 self.ctx.ev(a.id, f"insert_{kind} with a wire from a foreign region", None, outcome, fault="failed-insert")
+                if outcome == "returned":
+                    # the wire was legal after all (from a block of the same CFG: a Dom edge candidate) and the container has
+                    # been attached with one wire too many: the program is no longer one of the well-formed ones
+                    raise Discard("failed-insert-was-accepted")
                 self.ctx.fault("failed_insert_then_continue")
                 return
         if kind == "dfg":
